@@ -65,6 +65,34 @@ def message_ok(inp, im):
         return False
 
 
+def width_stream(ctx):
+    """deeply nested unit rules: 16 tokens per rune; inputs that fit uint8 / uint16 while the token count does not"""
+    rules = "S <- A1* !.\n" + "".join("A%d <- A%d\n" % (i, i + 1) for i in range(1, 16)) + "A16 <- 'a' / 'b'\n"
+    text = "package parser\n\ntype Parser Peg {\n T []string\n N int\n}\n" + rules + "\n"
+    bd = C.build_dir()
+    bt = B.Batch(bd, "width", [dict(id="w", text=text, text_noast=text)], ["d"], strict=False).generate().build()
+    out = []
+    try:
+        plans = [(["ab" * 5, "a" * 20, "ab" * 30 + "c", "b" * 100], ["uint8", "uint16", "uint32", "uint64", "uint"]),
+                 (["a" * 4100, "ab" * 2100 + "c"], ["uint16", "uint32", "uint64"])]
+        for inputs, widths in plans:
+            res = {}
+            for wd in widths:
+                r = bt.run_impl([("c", ("w", "d"), -1, True, -1, wd, inputs)])
+                res[wd] = [key_fields(B.parse_obs(x)) for x in (r.get("c") or [])]
+            ref = res[widths[-1]]
+            for wd in widths[:-1]:
+                if res[wd] != ref:
+                    k = next((i for i, (a, b) in enumerate(zip(res[wd], ref)) if a != b), 0)
+                    got = res[wd][k] if k < len(res[wd]) else ("missing",)
+                    out.append(("instantiated with %s the parser gives %s on an input of %d runes, with %s it gives %s" % (
+                        wd, str(got[:2])[:120], len(inputs[k]) if k < len(inputs) else -1, widths[-1], str(ref[k][:2])[:80] if k < len(ref) else "?"),
+                        {"grammar": text, "options": B.OPTSETS["d"], "inputs": inputs[:k + 1], "width": wd, "reference_width": widths[-1]}))
+    finally:
+        bt.cleanup()
+    return out
+
+
 def check(ctx):
     pid = ctx.pid
     opts, aspects, saspects, kinds = SPEC[pid]
@@ -150,6 +178,13 @@ def check(ctx):
                     a, b = key_fields(impl_step(rec, k)), key_fields(impl_step(f))
                     if a != b:
                         diffs.append((rec, "reuse-vs-fresh", "step %d input %r: reused %s fresh %s (Size=%s U=%s)" % (k, inp, a[:3], b[:3], rec.get("size"), rec.get("width")), True))
+    if pid == "C12":
+        # the instantiation must not matter as long as the input fits U: grammars that record many tokens per rune
+        # (token count exceeds what U can count although every offset fits)
+        for why, replay in width_stream(ctx):
+            wrec = dict(g=None, o="d", inputs=replay["inputs"], kind="width", cid="width", impl=None, model=None, spec=None)
+            ctx.violation(why, replay, found=True)
+        n_eval += 8
     if pid in ("C02", "C07"):
         base = {}
         for r in data["cases"]:
